@@ -17,6 +17,7 @@ TRANSLATORS = {"C08": "extract/io_extract.py → Gen/IoDecisions.lean",
                "C03": "extract/wake_extract.py (wake loops: no exit but the count, count untouched)",
                "C05": "extract/wake_extract.py", "C06": "extract/wake_extract.py", "C07": "extract/wake_extract.py", "C12": "extract/wake_extract.py",
                "C17": "extract/wq_extract.py (counter widths, wait-loop exits; fails closed)",
+               "C13": "extract/mpmc_extract.py (push/trypop retry loops: exits exactly CAS success and `!prev`; fails closed)",
                "C18": "extract/spin_extract.py (spin loop single exit, lock-word layout and widths, loop-free trylock/unlock; fails closed)",
                "C16": "extract/ring_extract.py → harness argument → init note (selects RingW variant)"}
 
